@@ -120,12 +120,12 @@ def run_book(case):
     tick, trading, t0, ops = case["tick"], case["trading"], case["t0"], case["ops"]
     orc = common.Oracle()
     try:
-        return _run_book(orc, tick, trading, t0, ops)
+        return _run_book(orc, tick, trading, t0, ops, case.get("quiet", 0))
     finally:
         orc.close()
 
 
-def _run_book(orc, tick, trading, t0, ops):
+def _run_book(orc, tick, trading, t0, ops, quiet_mask=0):
     b = common.Guarded(bourse.core.OrderBook(t0, tick, trading), "C18", "OrderBook")
     orc.call("book_new", start=t0, tick=tick, trading=trading)
     now = t0
@@ -150,7 +150,12 @@ def _run_book(orc, tick, trading, t0, ops):
     for step, op in enumerate(ops):
         kind = op[0]
         feat["calls"] += 1
-        before = py_book_snapshot(b)
+        # quiet calls: the Python object is NOT observed before or after the call (only the core's own snapshot is
+        # read, for ids), so that state cached between observations - not only state observed after every call -
+        # is compared; the last call is always observed
+        quiet = bool((quiet_mask >> (step % 64)) & 1) and step != len(ops) - 1
+        feat["quiet"] = feat.get("quiet", 0) + int(quiet)
+        before = oracle_book_snapshot(orc.call("book_snapshot")) if quiet else py_book_snapshot(b)
         if kind == "set_time":
             now = min(now + op[1], MAXU64)
             b.set_time(now)
@@ -190,7 +195,7 @@ def _run_book(orc, tick, trading, t0, ops):
                 raise Violation("C18 out-of-range integer accepted", "step %d %r" % (step, op))
             except OverflowError:
                 feat["errors"] += 1
-            after = py_book_snapshot(b)
+            after = before if quiet else py_book_snapshot(b)
             if after != before:
                 raise Violation("C18 failed call changed the object", "step %d %r: %s" % (step, op, first_diff(after, before)))
         elif kind == "time_bad":
@@ -266,9 +271,10 @@ def _run_book(orc, tick, trading, t0, ops):
                 r = orc.call("book_save", path=path, pretty=pretty)
                 b = common.Guarded(bourse.core.order_book_from_json(path), "C18", "OrderBook")
             feat["roundtrips"] += 1
-        compare(step, op)
+        if not quiet:
+            compare(step, op)
     nontrivial = feat["trades"] >= 1 and feat["cancel_or_modify"] >= 1 and feat["asym"] >= 1
-    return nontrivial, {"book_sequences": 1, "book_calls": feat["calls"], "book_trades": feat["trades"], "book_error_paths": feat["errors"], "book_snapshot_roundtrips": feat["roundtrips"], "book_asymmetric_states": feat["asym"], "book_modifies_restating_current_values": feat.get("restating_modifies", 0)}
+    return nontrivial, {"book_sequences": 1, "book_calls": feat["calls"], "book_trades": feat["trades"], "book_error_paths": feat["errors"], "book_snapshot_roundtrips": feat["roundtrips"], "book_asymmetric_states": feat["asym"], "book_modifies_restating_current_values": feat.get("restating_modifies", 0), "book_calls_not_observed": feat.get("quiet", 0)}
 
 
 def price_st(tick):
@@ -305,7 +311,7 @@ def book_case_st():
         seed_orders = st.lists(st.tuples(st.just("place"), st.booleans(), st.integers(1, 12), st.integers(0, 9), st.one_of(good_price, tight_price)), min_size=3, max_size=8)
         return st.tuples(seed_orders, st.lists(op, min_size=4, max_size=32)).map(lambda t: t[0] + t[1])
 
-    return st.integers(1, 10).flatmap(lambda tick: st.fixed_dictionaries({"tick": st.just(tick), "trading": st.sampled_from([True, True, True, False]), "t0": st.integers(0, 1000), "ops": ops_for(tick)}))
+    return st.integers(1, 10).flatmap(lambda tick: st.fixed_dictionaries({"tick": st.just(tick), "trading": st.sampled_from([True, True, True, False]), "t0": st.integers(0, 1000), "ops": ops_for(tick), "quiet": st.one_of(st.just(0), st.integers(0, 2**64 - 1), st.just(2**64 - 1))}))
 
 
 # ---------------------------------------------------------------------------------------------
@@ -322,6 +328,7 @@ def run_env(case):
 
 def _run_env(orc, case):
     seed, tick, t0, step_size, trading, ops = case["seed"], case["tick"], case["t0"], case["step_size"], case["trading"], case["ops"]
+    quiet_mask = case.get("quiet", 0)
     e = common.Guarded(bourse.core.StepEnv(seed, t0, tick, step_size, trading), "C18", "StepEnv")
     e2 = common.Guarded(bourse.core.StepEnv(seed, t0, tick, step_size, trading), "C18", "StepEnv")  # determinism: same seed, same calls
     orc.call("env_new", seed=seed, start=t0, tick=tick, step=step_size, trading=trading)
@@ -349,7 +356,9 @@ def _run_env(orc, case):
     for step, op in enumerate(ops):
         kind = op[0]
         feat["calls"] += 1
-        before = py_env_snapshot(e)
+        quiet = bool((quiet_mask >> (step % 64)) & 1) and step != len(ops) - 1  # see _run_book
+        feat["quiet"] = feat.get("quiet", 0) + int(quiet)
+        before = oracle_env_snapshot(orc.call("env_snapshot")) if quiet else py_env_snapshot(e)
         if kind == "place":
             _, bid, vol, trader, price = op
             r = orc.call("env_place", bid=bid, vol=vol, trader=trader, price=price)
@@ -372,7 +381,7 @@ def _run_env(orc, case):
                     e2.place_order(bid, vol, trader, price=price)
                 except ValueError:
                     pass
-                if py_env_snapshot(e) != before:
+                if not quiet and py_env_snapshot(e) != before:
                     raise Violation("C18 failed call changed the object", "step %d %r" % (step, op))
         elif kind == "place_bad":
             _, field, value = op
@@ -383,7 +392,7 @@ def _run_env(orc, case):
                 raise Violation("C18 out-of-range integer accepted", "step %d %r" % (step, op))
             except OverflowError:
                 feat["errors"] += 1
-            if py_env_snapshot(e) != before:
+            if not quiet and py_env_snapshot(e) != before:
                 raise Violation("C18 failed call changed the object", "step %d %r" % (step, op))
         elif kind == "cancel":
             n = len(before["orders"])
@@ -465,9 +474,10 @@ def _run_env(orc, case):
             e2.step()
             orc.call("env_step")
             feat["steps"] += 1
-        compare(step, op)
+        if not quiet:
+            compare(step, op)
     nontrivial = feat["trades"] >= 1 and feat["cancel_or_modify"] >= 1 and feat["asym"] >= 1
-    return nontrivial, {"env_sequences": 1, "env_calls": feat["calls"], "env_steps": feat["steps"], "env_trades": feat["trades"], "env_error_paths": feat["errors"], "env_asymmetric_states": feat["asym"], "env_instructions_for_the_next_created_order": feat.get("future_id", 0)}
+    return nontrivial, {"env_sequences": 1, "env_calls": feat["calls"], "env_steps": feat["steps"], "env_trades": feat["trades"], "env_error_paths": feat["errors"], "env_asymmetric_states": feat["asym"], "env_instructions_for_the_next_created_order": feat.get("future_id", 0), "env_calls_not_observed": feat.get("quiet", 0)}
 
 
 def env_case_st():
@@ -496,7 +506,7 @@ def env_case_st():
         return st.integers(0, 19).flatmap(lambda k: long_run if k == 0 else short)
 
     return st.integers(1, 10).flatmap(
-        lambda tick: st.fixed_dictionaries({"seed": st.one_of(st.integers(0, 2**64 - 1), st.integers(0, 5)), "tick": st.just(tick), "t0": st.one_of(st.integers(0, 1000), st.integers(0, 1000), st.integers(0, 2**62)), "step_size": st.sampled_from([50, 100, 1000, 10**6, 2**40]), "trading": st.sampled_from([True, True, True, False]), "ops": ops_for(tick)})
+        lambda tick: st.fixed_dictionaries({"seed": st.one_of(st.integers(0, 2**64 - 1), st.integers(0, 5)), "tick": st.just(tick), "t0": st.one_of(st.integers(0, 1000), st.integers(0, 1000), st.integers(0, 2**62)), "step_size": st.sampled_from([50, 100, 1000, 10**6, 2**40]), "trading": st.sampled_from([True, True, True, False]), "ops": ops_for(tick), "quiet": st.one_of(st.just(0), st.integers(0, 2**64 - 1), st.just(2**64 - 1))})
     )
 
 
